@@ -134,6 +134,13 @@ func govcCorpus() []govcSet {
 		{"augment-into-the-input-of-an-action-that-declares-none", []string{
 			`module m { namespace "urn:m"; prefix m; container c { action a; list l { key k; leaf k { type string; } action b { description "bare"; } } } grouping g { action ga; } container u { uses g; } }`,
 			`module x { namespace "urn:x"; prefix x; import m { prefix m; } augment "/m:c/m:a/m:input" { leaf p { type string; } } augment "/m:c/m:l/m:b/m:output" { choice r { leaf ok { type empty; } } } augment "/m:u/m:ga/m:input" { leaf q { type string; } } }`}, false},
+		{"error-in-a-grouping-defined-inside-a-grouping-that-is-used-through-another", []string{
+			`module m { namespace "urn:m"; prefix m; grouping g2 { uses g1; } grouping g1 { grouping inner { leaf x { type nosuchtype; } } leaf y { type string; } } container c { uses g2; } }`}, true},
+		{"error-in-an-unused-grouping-inside-a-container-inside-a-grouping", []string{
+			`module m { namespace "urn:m"; prefix m; grouping g2 { container k { uses g1; } } grouping g1 { container c { grouping inner { uses nosuchgrouping; } leaf y { type string; } } } container top { uses g2; } }`}, true},
+		{"error-in-a-grouping-defined-in-a-submodule-grouping", []string{
+			`module m { namespace "urn:m"; prefix m; include s; container top { uses sg2; } }`,
+			`submodule s { belongs-to m { prefix m; } grouping sg2 { uses sg1; } grouping sg1 { grouping inner { leaf x { type nosuchtype; } } leaf y { type string; } } }`}, true},
 		{"deviation", []string{base,
 			`module dv { namespace "urn:dv"; prefix dv; import m { prefix m; } deviation "/m:c/m:gc/m:gll" { deviate add { min-elements 5; } } deviation "/m:d/m:gl" { deviate not-supported; } }`}, false},
 	}
